@@ -67,6 +67,10 @@ class TaskType:
 
         while len(stack) > 0:
             curr_identifier = stack.pop()
+            if curr_identifier in visited:
+                # A task that is a dependency of several tasks may have been
+                # pushed more than once before its first visit.
+                continue
             visited.add(curr_identifier)
             task = ctx.task_index.get_task(curr_identifier)
             visitor(task)
